@@ -819,10 +819,30 @@ func vf16Release(p *Prog, fn *ssa.Function, ci ssa.CallInstruction, n string) (s
 	}
 	// (3b) cleanup inside a deferred closure that runs only when the enclosing function's success flag is unset:
 	// the enclosing function returns its own error on those paths
-	if fn.Parent() != nil && fn.Signature.Results().Len() == 0 && isDeferredClosure(fn) {
+	if fn.Signature.Results().Len() == 0 && (fn.Parent() != nil && isDeferredClosure(fn) || fn.Parent() == nil && onlyDeferred(p, fn)) {
 		return "cleanup inside a deferred closure (no error can be returned from there); the enclosing function reports its own error", true
 	}
 	return "", false
+}
+
+// onlyDeferred: every call of the named function fn in production code is a defer statement.
+func onlyDeferred(p *Prog, fn *ssa.Function) bool {
+	n := 0
+	for _, caller := range p.Funcs {
+		for _, b := range caller.Blocks {
+			for _, ins := range b.Instrs {
+				ci, ok := ins.(ssa.CallInstruction)
+				if !ok || ci.Common().StaticCallee() != fn {
+					continue
+				}
+				if _, isDefer := ci.(*ssa.Defer); !isDefer {
+					return false
+				}
+				n++
+			}
+		}
+	}
+	return n > 0
 }
 
 func isDeferredClosure(fn *ssa.Function) bool {
